@@ -210,6 +210,8 @@ func NewGCPMultiEndpoint(meOpts *GCPMultiEndpointOptions, opts ...grpc.DialOptio
 		}
 	}
 	if err := gme.UpdateMultiEndpoints(meOpts); err != nil {
+		// Release the pools (and their monitors) created before the failure.
+		gme.Close()
 		return nil, err
 	}
 	return gme, nil
